@@ -80,7 +80,17 @@ pub enum Kind {
 #[derive(Clone, Debug, Serialize, Deserialize)]
 pub enum Step {
     /// user index (0 = admin), command kind, event type index, credential form
-    Do { user: usize, kind: Kind, ty: usize, cred: Cred, tricky_payload: bool },
+    Do {
+        user: usize,
+        kind: Kind,
+        ty: usize,
+        cred: Cred,
+        tricky_payload: bool,
+        /// front end: 0 TCP, 1 Unix-socket connection type, 2 HTTP with X-Auth headers, 3 HTTP with the inline form in the body
+        /// (the signature-only front ends are used for the signature-based credential forms, everything else goes over TCP)
+        #[serde(default)]
+        via: u8,
+    },
     /// admin revokes the user's key; later requests of that user must fail
     RevokeKey { user: usize },
     /// admin revokes a grant
@@ -110,9 +120,9 @@ fn free_port() -> u16 {
     // ports are handed out from a per-process window; a bind test skips ports in use
     loop {
         let base = 20000 + (std::process::id() as u16 % 2000) * 10;
-        let n = NEXT_PORT.fetch_add(1, Ordering::SeqCst);
+        let n = NEXT_PORT.fetch_add(2, Ordering::SeqCst);
         let port = base.wrapping_add(n % 20000).max(10000);
-        if std::net::TcpListener::bind(("127.0.0.1", port)).is_ok() {
+        if std::net::TcpListener::bind(("127.0.0.1", port)).is_ok() && std::net::TcpListener::bind(("127.0.0.1", port + 1)).is_ok() {
             return port;
         }
     }
@@ -132,6 +142,31 @@ fn request(port: u16, lines: &[String]) -> Result<String, String> {
     s.read_to_end(&mut buf).map_err(|e| e.to_string())?;
     out.push_str(&String::from_utf8_lossy(&buf));
     Ok(out)
+}
+
+/// one HTTP/1.1 POST /command (Connection: close); returns the body, prefixed with the status the JSON body announces so that
+/// it reads like the line-protocol answers ("200 ...")
+fn http_post(port: u16, extra_headers: &str, body: &str) -> Result<String, String> {
+    let mut s = std::net::TcpStream::connect(("127.0.0.1", port)).map_err(|e| e.to_string())?;
+    s.set_read_timeout(Some(std::time::Duration::from_secs(20))).ok();
+    let req = format!("POST /command HTTP/1.1\r\nHost: 127.0.0.1\r\nAuthorization: Bearer tok\r\nContent-Type: text/plain\r\n{}Content-Length: {}\r\nConnection: close\r\n\r\n{}", extra_headers, body.len(), body);
+    s.write_all(req.as_bytes()).map_err(|e| e.to_string())?;
+    let mut buf = Vec::new();
+    s.read_to_end(&mut buf).map_err(|e| e.to_string())?;
+    let text = String::from_utf8_lossy(&buf).to_string();
+    let (head, payload) = text.split_once("\r\n\r\n").unwrap_or((text.as_str(), ""));
+    let http_status = head.split_whitespace().nth(1).unwrap_or("0").to_string();
+    // chunked bodies: drop the chunk-size lines
+    let payload: String = if head.to_ascii_lowercase().contains("transfer-encoding: chunked") {
+        payload.split("\r\n").enumerate().filter(|(i, _)| i % 2 == 1).map(|(_, l)| l).collect::<Vec<_>>().join("\n")
+    } else {
+        payload.to_string()
+    };
+    let announced = payload.find("\"status\":").and_then(|i| payload[i + 9..].chars().take_while(|c| c.is_ascii_digit()).collect::<String>().parse::<u16>().ok());
+    Ok(match announced {
+        Some(n) => format!("{} [http {}] {}", n, http_status, payload),
+        None => format!("[http {}] {}", http_status, payload),
+    })
 }
 
 fn user_ids(ex_bypass: bool) -> Vec<&'static str> {
@@ -167,7 +202,7 @@ fn case_strategy(tier: Tier, ex: Excl) -> BoxedStrategy<Case> {
             };
             let cred = prop_oneof![4 => Just(Cred::Inline), 2 => Just(Cred::Connection), 2 => Just(Cred::Token), 1 => Just(Cred::WrongKey), 1 => Just(Cred::TruncatedSignature), 1 => Just(Cred::SignatureOfOtherCommand), 1 => Just(Cred::NoCredentials), 1 => Just(Cred::GarbageToken), 2 => Just(Cred::EarlierToken)];
             let step = prop_oneof![
-                20 => (0..n, prop::sample::select(kinds), 0usize..2, cred, any::<bool>()).prop_map(|(user, kind, ty, cred, tricky_payload)| Step::Do { user, kind, ty, cred, tricky_payload }),
+                20 => (0..n, prop::sample::select(kinds), 0usize..2, cred, any::<bool>(), prop::sample::select(vec![0u8, 0, 0, 1, 2, 3])).prop_map(|(user, kind, ty, cred, tricky_payload, via)| Step::Do { user, kind, ty, cred, tricky_payload, via }),
                 1 => (1..n).prop_map(|user| Step::RevokeKey { user }),
                 1 => (1..n, 0usize..2, any::<bool>()).prop_map(|(user, ty, read)| Step::RevokeGrant { user, ty, read }),
                 2 => (1..n, any::<bool>(), any::<bool>(), prop::sample::select(vec![vec![0usize], vec![1], vec![0, 1], vec![1, 0]]), prop::bool::weighted(0.3)).prop_map(|(user, r, w, types, revoke)| Step::AdminGrant { user, read: r || !w, write: w, types, revoke }),
@@ -212,8 +247,8 @@ fn run_case(c: &Case, rep: &mut CaseReport) -> Verdict {
             return Verdict::Discard("start failed".into());
         }
     };
-    if db.req(json!({"op":"tcp_start"})).is_err() {
-        return Verdict::Discard("tcp start failed".into());
+    if db.req(json!({"op":"tcp_start"})).is_err() || db.req(json!({"op":"http_start"})).is_err() {
+        return Verdict::Discard("tcp / http start failed".into());
     }
     let mut log: Vec<String> = vec![];
     let mut send = |lines: Vec<String>, log: &mut Vec<String>| -> Result<String, Verdict> {
@@ -348,12 +383,12 @@ fn run_case(c: &Case, rep: &mut CaseReport) -> Verdict {
     // closing permission matrix: every user x event type, one write probe and one read probe with valid credentials
     for ui in 1..all_users.len() {
         for ty in 0..2 {
-            steps.push((Step::Do { user: ui, kind: Kind::Store, ty, cred: Cred::Inline, tricky_payload: false }, false));
-            steps.push((Step::Do { user: ui, kind: Kind::Query, ty, cred: Cred::Inline, tricky_payload: false }, false));
+            steps.push((Step::Do { user: ui, kind: Kind::Store, ty, cred: Cred::Inline, tricky_payload: false, via: (ui + ty) as u8 % 4 }, false));
+            steps.push((Step::Do { user: ui, kind: Kind::Query, ty, cred: Cred::Inline, tricky_payload: false, via: (ui + ty + 1) as u8 % 4 }, false));
         }
     }
     if let Some((user, kind, ty)) = &c.expired {
-        steps.push((Step::Do { user: *user, kind: kind.clone(), ty: *ty, cred: Cred::EarlierToken, tricky_payload: false }, true));
+        steps.push((Step::Do { user: *user, kind: kind.clone(), ty: *ty, cred: Cred::EarlierToken, tricky_payload: false, via: 0 }, true));
     }
     let mut revoked: BTreeSet<String> = BTreeSet::new();
     let mut remembered: Vec<Option<String>> = vec![None, None];
@@ -432,7 +467,7 @@ fn run_case(c: &Case, rep: &mut CaseReport) -> Verdict {
                 }
                 rep.label(if *revoke { "history:multi-type-revoke" } else { "history:multi-type-grant" });
             }
-            Step::Do { user, kind, ty, cred, tricky_payload } => {
+            Step::Do { user, kind, ty, cred, tricky_payload, via } => {
                 let u = all_users[*user % all_users.len()].clone();
                 let t = TYPES[*ty];
                 let key = keys.get(&u.id).cloned().unwrap_or_default();
@@ -502,9 +537,43 @@ fn run_case(c: &Case, rep: &mut CaseReport) -> Verdict {
                 };
                 rep.label(format!("cred:{:?}", cred));
                 rep.label(format!("kind:{:?}", kind));
-                let resp = match send(lines, &mut log) {
-                    Ok(r) => r,
-                    Err(v) => return v,
+                let signature_form = matches!(cred, Cred::Inline | Cred::WrongKey | Cred::TruncatedSignature | Cred::SignatureOfOtherCommand | Cred::NoCredentials) && lines.len() == 1 && !*after_expiry;
+                let via = if signature_form { *via } else { 0 };
+                rep.label(format!("via:{}", ["tcp", "unix", "http-headers", "http-inline"][via as usize % 4]));
+                let resp = match via % 4 {
+                    1 => {
+                        log.push(format!("> [unix] {}", lines[0]));
+                        match db.req(json!({"op":"unix_conn","lines":lines})) {
+                            Ok(v) => {
+                                let r = v["out"].as_str().unwrap_or("").to_string();
+                                log.push(format!("< {}", r.chars().take(300).collect::<String>().replace('\n', " | ")));
+                                r
+                            }
+                            Err(_) => return Verdict::Discard("unix connection op failed".into()),
+                        }
+                    }
+                    2 | 3 => {
+                        // headers: user and signature travel in X-Auth-User / X-Auth-Signature, the body is the bare command
+                        let (headers, body) = if via % 4 == 2 && *cred != Cred::NoCredentials {
+                            let mut it = lines[0].splitn(3, ':');
+                            let (u0, s0, c0) = (it.next().unwrap_or(""), it.next().unwrap_or(""), it.next().unwrap_or(""));
+                            (format!("X-Auth-User: {}\r\nX-Auth-Signature: {}\r\n", u0, s0), c0.to_string())
+                        } else {
+                            (String::new(), lines[0].clone())
+                        };
+                        log.push(format!("> [http] {}| {}", headers.replace("\r\n", " "), body));
+                        match http_post(port + 1, &headers, &body) {
+                            Ok(r) => {
+                                log.push(format!("< {}", r.chars().take(300).collect::<String>().replace('\n', " | ")));
+                                r
+                            }
+                            Err(e) => return Verdict::Discard(format!("http: {}", e)),
+                        }
+                    }
+                    _ => match send(lines, &mut log) {
+                        Ok(r) => r,
+                        Err(v) => return v,
+                    },
                 };
                 // the first line of a connection-authenticated conversation answers the AUTH itself
                 let resp = if *cred == Cred::Connection { resp.split_once('\n').map(|x| x.1.to_string()).unwrap_or_default() } else { resp };
@@ -615,7 +684,7 @@ pub fn run(ctx: &Ctx) -> i32 {
     let mut report = Report::new(
         "C13",
         "exploration",
-        "generated (1-3 users with ids from everything the id validator admits - incl. look-alikes of the admin id, 'admin', 'no-auth', 'bypass' -, roles none / admin / read-only / viewer / editor / write-only, per-type READ / WRITE grants; 6-40 steps: a command of every kind (STORE, BATCH [STORE], QUERY, typed / untyped REPLAY, sequence query, aggregate, comparison (PLOT .. VS ..), REMEMBER, SHOW, FLUSH, DEFINE, CREATE USER, GRANT, REVOKE KEY, LIST USERS, SHOW PERMISSIONS) under an identity with one of ten credential forms (inline signature, connection AUTH + signed command, fresh session token, a session token obtained before later revocations, a session token used after the 2 s expiry has certainly passed, wrong key, truncated signature, signature of another command, no credentials, garbage token), payloads containing ' TOKEN ' and ':'; key and grant revocations in between). The worker runs the real TCP listener; every request is a socket conversation. Every history ends with a permission matrix: each user x event type gets one write probe and one read probe with valid credentials. Oracle on effects: a response never carries events of a type the requester may not read; a refused STORE leaves no event (checked by the admin), a permitted one does; admin-only operations succeed exactly for admins; revocation holds from the next request. Non-trivial: a non-admin identity issuing something other than STORE / QUERY / DEFINE.",
+        "generated (1-3 users with ids from everything the id validator admits - incl. look-alikes of the admin id, 'admin', 'no-auth', 'bypass' -, roles none / admin / read-only / viewer / editor / write-only, per-type READ / WRITE grants; 6-40 steps: a command of every kind (STORE, BATCH [STORE], QUERY, typed / untyped REPLAY, sequence query, aggregate, comparison (PLOT .. VS ..), REMEMBER, SHOW, FLUSH, DEFINE, CREATE USER, GRANT, REVOKE KEY, LIST USERS, SHOW PERMISSIONS) under an identity with one of ten credential forms (inline signature, connection AUTH + signed command, fresh session token, a session token obtained before later revocations, a session token used after the 2 s expiry has certainly passed, wrong key, truncated signature, signature of another command, no credentials, garbage token), payloads containing ' TOKEN ' and ':'; key and grant revocations in between). The worker runs the real TCP and HTTP listeners and the Unix-socket front end's connection type; every request is a socket (or in-memory pipe) conversation: connection AUTH and tokens over TCP, signature-based forms over TCP, the Unix connection, HTTP with X-Auth-User / X-Auth-Signature headers, or HTTP with the inline form in the body. Every history ends with a permission matrix: each user x event type gets one write probe and one read probe with valid credentials. Oracle on effects: a response never carries events of a type the requester may not read; a refused STORE leaves no event (checked by the admin), a permitted one does; admin-only operations succeed exactly for admins; revocation holds from the next request. Non-trivial: a non-admin identity issuing something other than STORE / QUERY / DEFINE.",
     );
     report.assumptions = vec!["reference policy: users have either a role or per-type grants (the interplay of both is documented ambiguously and not generated)".into()];
     let ex = Excl { bypass_id: ctx.open("auth.user_id_bypass"), unchecked_kinds: ctx.open("auth.commands_without_identity"), agg_ignores_type: ctx.open_any("agg.special_fields_skipped") };
